@@ -1150,8 +1150,9 @@ class yanny(OrderedDict):
         if not self.raw:
             for t in self.tables():
                 record = np.zeros((self.size(t),), dtype=self.dtype(t))
-                for c in self.columns(t):
-                    record[c] = self[t][c]
+                if len(record) > 0:
+                    for c in self.columns(t):
+                        record[c] = self[t][c]
                 self[t] = record.view(np.recarray)
         return
 
